@@ -182,3 +182,5 @@ fn run(kind: usize, seq: &[usize], all: &[Op]) {
         }
     }
 }
+// alias so that a failed obligation of instantiate_quad (unit execute_query) finds its concrete input here
+#[test] fn w__instantiate_quad__any() { w__update_graph_sequences__agree_with_sparql_update_semantics(); }
